@@ -52,6 +52,7 @@ def check(ctx):
     r07_8(ctx, g)
     r07_9(ctx, g)
     r07_10(ctx, g)
+    r07_11(ctx, g)
     ctx.not_decided += [
         "file-level equality on every GFA (tags round-trip through a dict: a repeated tag name on one S line keeps the last value)",
         "uniqueness of component names in name_comps (two components with the same majority SN overwrite each other)",
@@ -224,6 +225,14 @@ def r07_2(ctx, g):
                 if {"S", "L"} <= lets and len(outs) >= 2:
                     ctx.violated("R07.2", run.where(l0), "one loop over the per-chromosome files writes both S lines and L lines: the L lines of one chromosome precede the S lines of the next (and a buffer that is not emptied repeats links)", key_of(run, "concat-single-pass"))
                     return
+                if {"S", "L"} <= lets:
+                    # one pass per file with the L lines buffered and written after the loop: the buffer must collect the
+                    # links of *all* files, i.e. be created before the loop over the files, not once per file
+                    bufs = {norm(c.func.value) for c in ast.walk(l0) if isinstance(c, ast.Call) and isinstance(c.func, ast.Attribute) and c.func.attr in ("append", "extend")}
+                    resets = [st for st in ast.walk(l0) if isinstance(st, ast.Assign) and norm(st.targets[0]) in bufs and isinstance(st.value, (ast.List, ast.Call))]
+                    if bufs and resets:
+                        ctx.violated("R07.2", run.where(resets[0]), f"the buffer `{norm(resets[0].targets[0])}` that collects the L lines is emptied for every per-chromosome file: only the links of the last chromosome reach the complete file", key_of(run, "concat-buffer-reset-per-file"))
+                        return
         raise AnalysisError("R07.2", run.where(), "cannot find the concatenation of the per-chromosome GFA files (S pass / L pass)")
     w = withs[0]
     seq = [pass_of(st) for st in w.body]
@@ -521,3 +530,42 @@ def r07_10(ctx, g):
     # record letters: the reader dispatches on 'S' and 'L' only
     tests = sorted({const_value(c.args[0]) for c in walk_own(rg.node) if isinstance(c, ast.Call) and isinstance(c.func, ast.Attribute) and c.func.attr == "startswith" and c.args})
     ctx.check(tests == ["L", "S"], "R07.10", rg.where(), "the reader takes S lines as segments and L lines as links", key_of(rg, f"letters:{tests}"))
+
+
+def r07_11(ctx, g):
+    """A link read without optional fields is stored with a one-element placeholder ([0]) as its tag list; the writer
+    must still write that link (with no tags): on every path of the per-neighbour loop on which the placeholder is
+    recognised (tags[0] == 0) an L line is emitted."""
+    from ..paths import canon_test
+
+    wf = g.write_gfa
+    loops = [l for l in walk_own(wf.node) if isinstance(l, ast.For) and norm(l.iter).endswith((".start", ".end"))]
+    ctx.require_count("R07.11", len(loops), 2, wf.where(), "per-neighbour loops of the writer (start side, end side)")
+
+    def conjuncts(t, pol):
+        if isinstance(t, ast.BoolOp) and isinstance(t.op, ast.And) and pol:
+            return [x for v in t.values for x in conjuncts(v, True)]
+        if isinstance(t, ast.BoolOp) and isinstance(t.op, ast.Or) and not pol:
+            return [x for v in t.values for x in conjuncts(v, False)]
+        return [canon_test(t, pol)]
+
+    n_ph = 0
+    for lp in loops:
+        tv = None
+        for st in walk_stmts(lp.body):
+            if isinstance(st, ast.Assign) and isinstance(st.value, ast.Subscript) and norm(st.value.value).endswith("edge_tags") and isinstance(st.targets[0], ast.Name):
+                tv = st.targets[0].id
+        if tv is None:
+            raise AnalysisError("R07.11", wf.where(lp), "cannot find the tag lookup of the neighbour loop")
+        paths = enum_paths(lp.body, rule="R07.11", where=wf.where(lp))
+        bad = None
+        for p in paths:
+            cj = [c for e in p.events if e.kind == "test" for c in conjuncts(e.node, e.pol)]
+            placeholder = (f"{tv}[0] == 0", True) in cj
+            emitted = any(e.kind == "stmt" and isinstance(e.node, ast.Expr) and isinstance(e.node.value, ast.Call) and isinstance(e.node.value.func, ast.Attribute) and e.node.value.func.attr in ("append", "write") for e in p.events)
+            if placeholder:
+                n_ph += 1
+                if not emitted:
+                    bad = p
+        ctx.check(bad is None, "R07.11", wf.where(lp), "a link stored with the no-tags placeholder is still written (the placeholder is cleared only after the decision to write the link)", key_of(wf, f"placeholder-link-written:{norm(lp.iter)[-6:]}"), **({"path": bad.show()} if bad else {}))
+    ctx.require_count("R07.11", n_ph, 2, wf.where(), "paths that recognise the no-tags placeholder")
